@@ -37,6 +37,9 @@ class SimFS:
         self.crash_at = None
         self.log = []
         self.fail_replace = False
+        self.enospc = None        # True, or a set of paths: writes and creations there fail with ENOSPC
+        self.fds = {}             # os.open() descriptors: fd -> (path, flags)
+        self._next_fd = 1000
 
     # dict-like view used by the checks: fs.files[path] -> bytes
     @property
@@ -67,22 +70,55 @@ class SimFS:
         return nbytes
 
     # ---- durable operations
-    def _raw_write(self, inode, path, data: bytes):
+    def _raw_write(self, inode, path, data: bytes, pos=None):
+        if self.enospc is not None and (self.enospc is True or path in self.enospc):
+            raise OSError(28, 'No space left on device', path)
         allowed = self._tick('write', path, len(data))
+        if pos is None:
+            pos = len(inode.data)
         if isinstance(allowed, tuple):
             n = allowed[1]
-            inode.data = inode.data + data[:n]
+            inode.data = inode.data[:pos] + data[:n] + inode.data[pos + n:]
             raise Crash()
-        inode.data = inode.data + data
+        inode.data = inode.data[:pos] + data + inode.data[pos + len(data):]
+
+    def os_open(self, path, flags, mode=0o777):
+        path = str(path)
+        if flags & _os.O_CREAT and flags & _os.O_EXCL and path in self.inodes:
+            raise FileExistsError(17, 'File exists', path)
+        if path not in self.inodes:
+            if not flags & _os.O_CREAT:
+                raise FileNotFoundError(2, 'No such file or directory', path)
+            if self.enospc is not None and (self.enospc is True or path in self.enospc):
+                raise OSError(28, 'No space left on device', path)
+            self._tick('create', path)
+            self.inodes[path] = _Inode()
+        if flags & _os.O_TRUNC:
+            self._tick('truncate', path)
+            self.inodes[path].data = b''
+        self._next_fd += 1
+        self.fds[self._next_fd] = (path, flags)
+        return self._next_fd
 
     def open(self, path, mode='r', *a, **kw):
+        if isinstance(path, int):
+            # builtin open() on a descriptor from os.open(): writes start at offset 0 and do NOT truncate
+            p_, flags = self.fds.pop(path)
+            if 'w' in mode or 'a' in mode or '+' in mode:
+                return SimWriteFile(self, p_, self.inodes[p_], binary='b' in mode, pos=(len(self.inodes[p_].data) if flags & _os.O_APPEND else 0))
+            data = self.inodes[p_].data
+            return io.BytesIO(data) if 'b' in mode else io.StringIO(data.decode('utf-8'))
         path = str(path)
         if 'r' in mode and '+' not in mode:
             if path not in self.inodes:
                 raise FileNotFoundError(2, 'No such file or directory', path)
             data = self.inodes[path].data
             return io.BytesIO(data) if 'b' in mode else io.StringIO(data.decode('utf-8'))
-        if 'w' in mode:
+        if 'w' in mode or 'x' in mode:
+            if 'x' in mode and path in self.inodes:
+                raise FileExistsError(17, 'File exists', path)
+            if self.enospc is not None and (self.enospc is True or path in self.enospc):
+                raise OSError(28, 'No space left on device', path)
             self._tick('truncate', path)
             ino = self.inodes.get(path)
             if ino is None:
@@ -131,6 +167,10 @@ class SimFS:
             remove = staticmethod(fs.remove)
             rename = staticmethod(fs.replace)
             getpid = staticmethod(_os.getpid)
+            open = staticmethod(fs.os_open)
+            O_WRONLY, O_RDWR, O_RDONLY, O_CREAT = _os.O_WRONLY, _os.O_RDWR, _os.O_RDONLY, _os.O_CREAT
+            O_TRUNC, O_EXCL, O_APPEND = _os.O_TRUNC, _os.O_EXCL, _os.O_APPEND
+            fsync = staticmethod(lambda fd: None)
 
         return _Os
 
@@ -157,13 +197,22 @@ class _FilesView:
 
 
 class SimWriteFile:
-    def __init__(self, fs: SimFS, path: str, inode, binary: bool):
+    def __init__(self, fs: SimFS, path: str, inode, binary: bool, pos=None):
         self.fs = fs
         self.path = path
         self.inode = inode
         self.binary = binary
         self.buf = b''
         self.closed = False
+        self.pos = pos            # None: append to what is there (the file was truncated on open)
+
+    def fileno(self):
+        return -1
+
+    def _emit(self, chunk):
+        self.fs._raw_write(self.inode, self.path, chunk, self.pos)
+        if self.pos is not None:
+            self.pos += len(chunk)
 
     def write(self, s):
         if self.closed:
@@ -173,13 +222,13 @@ class SimWriteFile:
         n = self.fs.raw_write_size
         while len(self.buf) >= n:
             chunk, self.buf = self.buf[:n], self.buf[n:]
-            self.fs._raw_write(self.inode, self.path, chunk)
+            self._emit(chunk)
         return len(s)
 
     def flush(self):
         if self.buf:
             chunk, self.buf = self.buf, b''
-            self.fs._raw_write(self.inode, self.path, chunk)
+            self._emit(chunk)
 
     def close(self):
         if not self.closed:
